@@ -533,6 +533,12 @@ func runC05(r *Run, rng *Rng, thorough bool) {
 			r.Fail("no-panic", fmt.Sprintf("using a P2Claims with an empty nonce list panics: %v", what))
 		}
 	}
+	// the token layer behind FromJSON (unmarshalKeys / skipValue alone): malformed streams, stray closers, deep nesting
+	jreps := 600
+	if thorough {
+		jreps = 6000
+	}
+	jtokCases(r, rng, jreps, 300)
 	r.extra["panics_seen"] = nPan
 }
 
